@@ -3,7 +3,7 @@
    the source (a status added to the BodySize::None arm, a header name added to or removed from the
    skip arms, the content-length guard, the end-of-stream rule, ...) a lemma below stops compiling or
    stops being true, in addition to the correspondence check. *)
-From AV Require Import Lib.Base Gen.H2Tables H2.Prepare H2.SendLoop H2.Spec H2.PrepareProofs.
+From AV Require Import Lib.Base Gen.H2Tables H2.Prepare H2.SendLoop H2.Spec H2.PrepareProofs H2.LengthProofs.
 
 Definition memN (s : N) (l : list N) : bool := existsb (N.eqb s) l.
 Definition memB (k : bytes) (l : list bytes) : bool := existsb (bytes_eqb k) l.
@@ -97,3 +97,15 @@ Lemma literal_rules_present :
   && H2_CHUNK_CAP_RULE && H2_SPLIT_RULE && H2_SKIP_EMPTY_CHUNK && H2_FINAL_FRAME_RULE
   && (H2_STATUS_ARMS =? 2) && (H2_COPY_ARMS =? 5) = true.
 Proof. reflexivity. Qed.
+
+(* the initialiser of skip_len, evaluated by the translator for each BodySize variant from the
+   expression as written in the source (`size != &BodySize::Stream`), is the model's
+   (prepare_response uses it: LengthProofs.prepare_uses_skip_len_init, by reflexivity) *)
+Lemma skip_len_init_matches_generated : forall size,
+  skip_len_init size =
+  match size with
+  | SNone => H2_SKIP_LEN_INIT_NONE
+  | SSized _ => H2_SKIP_LEN_INIT_SIZED
+  | SStream => H2_SKIP_LEN_INIT_STREAM
+  end.
+Proof. intros []; reflexivity. Qed.
